@@ -96,6 +96,29 @@ func c03Step(server bool, prop string) {
 			verifCover("rejected")
 		}
 	}
+	// whatever the property: a well-formed packet for this session with a fresh
+	// counter is TRIED against the AEAD - whatever its payload length, zero
+	// included - and what is authenticated is the whole 16-byte header, counter
+	// included (otherwise a rewritten counter replays an accepted packet)
+	if n >= 16+TagLen && oldState != closed {
+		ctr0 := uint64(msg[8])<<56 | uint64(msg[9])<<48 | uint64(msg[10])<<40 | uint64(msg[11])<<32 | uint64(msg[12])<<24 | uint64(msg[13])<<16 | uint64(msg[14])<<8 | uint64(msg[15])
+		wellFormed := verifAnd(verifOr(msg[0] == byte(MessageTypeTransport), msg[0] == byte(MessageTypeControl)), verifAnd(msg[1] == 0, verifAnd(msg[2] == 0, msg[3] == 0)))
+		wellFormed = verifAnd(wellFormed, verifAnd(verifAnd(msg[4] == ss.sessionID[0], msg[5] == ss.sessionID[1]), verifAnd(msg[6] == ss.sessionID[2], msg[7] == ss.sessionID[3])))
+		if wellFormed && oldWin.Check(ctr0) {
+			verifAssert(nOpen == 1, prop+": a well-formed packet with a fresh counter is tried against the session key whatever its payload length (an authentic empty message is a message)")
+			verifCover("tried")
+		}
+	}
+	if nOpen > 0 && n >= 32 {
+		rec0 := sessLog.opens[nOpen-1]
+		adAll := len(rec0.ad) == 16
+		if adAll {
+			for i := 0; i < 16; i++ {
+				adAll = verifAnd(adAll, rec0.ad[i] == msg[i])
+			}
+		}
+		verifAssert(adAll, prop+": the associated data authenticated with a packet is its whole 16-byte header - type, session id AND counter")
+	}
 	if prop == "C14" {
 		// what the filter gets to see: only counters of packets that authenticated
 		if !opened {
@@ -137,28 +160,28 @@ func c03Step(server bool, prop string) {
 //verif:replay none
 //verif:stub hop.computer/hop/kravatte.NewSANSE = sessNewSANSE
 //verif:bounds one datagram, length symbolic 0..65535, all bytes symbolic, from an arbitrary session state (keys, window, lifecycle, peer address, receive queue of capacity 2 empty or full); AEAD open nondeterministic and recorded
-//verif:cover delivered;closed-by-control;rejected
+//verif:cover delivered;closed-by-control;rejected;tried
 func VH_C03_server_receive_step() { c03Step(true, "C03") }
 
 //verif:prop C03
 //verif:replay none
 //verif:stub hop.computer/hop/kravatte.NewSANSE = sessNewSANSE
 //verif:bounds as the server variant
-//verif:cover delivered;closed-by-control;rejected
+//verif:cover delivered;closed-by-control;rejected;tried
 func VH_C03_client_receive_step() { c03Step(false, "C03") }
 
 //verif:prop C15
 //verif:replay none
 //verif:stub hop.computer/hop/kravatte.NewSANSE = sessNewSANSE
 //verif:bounds one datagram of symbolic length and content from an arbitrary source address against an arbitrary session state, receive queue (capacity 2) empty or full; AEAD open nondeterministic and recorded
-//verif:cover moved;genuine;forged;genuine-while-queue-full
+//verif:cover moved;genuine;forged;genuine-while-queue-full;tried
 func VH_C15_server_address_moves_only_on_authentic() { c03Step(true, "C15") }
 
 //verif:prop C15
 //verif:replay none
 //verif:stub hop.computer/hop/kravatte.NewSANSE = sessNewSANSE
 //verif:bounds as the server variant
-//verif:cover moved;genuine;forged;genuine-while-queue-full
+//verif:cover moved;genuine;forged;genuine-while-queue-full;tried
 func VH_C15_client_address_moves_only_on_authentic() { c03Step(false, "C15") }
 
 // C15: traffic is sent to the session's current peer address.
@@ -188,5 +211,5 @@ func VH_C15_send_goes_to_current_peer_address() {
 //verif:replay none
 //verif:stub hop.computer/hop/kravatte.NewSANSE = sessNewSANSE
 //verif:bounds as VH_C03_server_receive_step
-//verif:cover forged;genuine
+//verif:cover forged;genuine;tried
 func VH_C14_only_authenticated_packets_reach_the_filters_memory() { c03Step(true, "C14") }
